@@ -56,6 +56,12 @@ def normalise(body):
     body = body.replace('std::errc{}', 'std::errc()')
     body = re.sub(r'for\s*\(\s*auto\s*&\s*(\w+)\s*:\s*(\w+)\s*\)', r'while (RANGE_FOR(\1, \2))', body)
     body = re.sub(r'\[\[nodiscard\]\]', '', body)
+    # error handler of the row functions (outside cxxparse's subset): `try {A} catch (read_error &) {B}`
+    # -> `if (TRY()) {A} else {B}`; the re-throw `throw;` -> `throw read_error("rethrow");`
+    body = re.sub(r'\btry\s*\{', 'if (TRY()) {', body)
+    body = re.sub(r'\}\s*catch\s*\(\s*read_error\s*&\s*\)\s*\{', '} else {', body)
+    body = re.sub(r'\bthrow\s*;', 'throw read_error("rethrow");', body)
+    body = re.sub(r'std::numeric_limits\s*<\s*std::streamsize\s*>\s*::\s*max\s*\(\s*\)', 'STREAMSIZE_MAX', body)
     return body
 
 
@@ -263,7 +269,8 @@ def calls_in(e, acc):
 
 
 INTERESTING = ('read_chunk', 'read_single', 'next_line', 'skip_comments', 'done', 'read', 'std::copy',
-               'std::from_chars', 'push_back', 'RANGE_FOR', 'print_elem', 'print_csv_impl')
+               'std::from_chars', 'push_back', 'RANGE_FOR', 'print_elem', 'print_csv_impl', 'TRY',
+               'discard_line')
 
 
 def brief(e):
@@ -492,9 +499,41 @@ def main(out_path):
     o.fn('doneKeep', ss[0][3], 'done: local keep_reading', 'B', ['peek', 'eof1'])
     o.fn('doneRet', ss[1][1], 'done: return value', 'B', ['bufidx', 'keep'])
 
-    # ---- row functions (skeleton only) -------------------------------------------------------
-    region('read_row_impl', r'void\s+read_row_impl\s*\(', scope=src)
-    region('read_row_std_vector', r'read_row_std_vector\s*\(', scope=src)
+    # ---- row functions: skeleton + which of the two known shapes (plain / with the error handler) ----
+    def ref(text):
+        return cp.ast_hash(drop_asserts(cp.parse_statements(normalise(text))))
+    handler = ('} catch (read_error &) { if (resync) reader.discard_line(is); throw; }')
+    impl_body = ('reader.skip_comments(is); for (auto &vv : v) vv = reader.read(is, sep); '
+                 'reader.next_line(is);')
+    vec_body = ('reader.skip_comments(is); while (!reader.done(is)) v.push_back(reader.read(is, sep)); '
+                'reader.next_line(is);')
+    shapes = {
+        'read_row_impl': {
+            ref('CSVReader<F> reader; ' + impl_body): 'false',
+            ref('CSVReader<F> reader; const bool resync = !is.fail(); try { ' + impl_body + handler): 'true'},
+        'read_row_std_vector': {
+            ref('CSVReader<F> reader; std::vector<F> v; ' + vec_body + ' return v;'): 'false',
+            ref('CSVReader<F> reader; std::vector<F> v; const bool resync = !is.fail(); try { ' + vec_body
+                + handler + ' return v;'): 'true'}}
+    flags = {}
+    for nm, anchor, lean in (('read_row_impl', r'void\s+read_row_impl\s*\(', 'rowImplResyncs'),
+                             ('read_row_std_vector', r'read_row_std_vector\s*\(', 'rowVecResyncs')):
+        ss = region(nm, anchor, scope=src)
+        h = cp.ast_hash(ss)
+        need(h in shapes[nm], f'{nm} is neither the plain body nor the body wrapped in the '
+             f'`catch (read_error &) {{ if (resync) reader.discard_line(is); throw; }}` handler '
+             f'(resync = !is.fail())')
+        flags[nm] = shapes[nm][h]
+        o.const(lean, 'Bool', flags[nm], f'csv.tpp {nm}: wrapped in the error handler that calls '
+                'discard_line (exact statement shape checked by the translator)')
+    if re.search(r'void\s+discard_line\s*\(', sbody):
+        ss = region('discard_line', r'void\s+discard_line\s*\(')
+        need(cp.ast_hash(ss) == ref('bufidx = 0; if (is.bad()) return; is.clear(); '
+                                    'is.ignore(std::numeric_limits<std::streamsize>::max(), end);'),
+             'discard_line is not `bufidx = 0; if (is.bad()) return; is.clear(); is.ignore(max, end);`')
+    else:
+        need('true' not in flags.values(), 'error handler present but CSVReader::discard_line is missing')
+        o.const('skel_discard_line', 'List String', '[]', 'csv.tpp has no CSVReader::discard_line')
 
     # ---- printers ------------------------------------------------------------------------------
     psrc = cp.strip_comments(open(PRINT, encoding='utf8').read())
